@@ -1179,9 +1179,9 @@ impl CoEngine {
         let tor = term_oracle(case.terminal);
         let extra: Vec<world::Violation> = violations
             .iter()
-            .filter(|v| matches!(v.oracle, Oracle::L | Oracle::D | Oracle::WakerPanic | Oracle::Panic(_)))
-            .filter(|v| !(case.terminal == Terminal::CollectVec && matches!(v.oracle, Oracle::L | Oracle::D)))
-            .map(|v| world::Violation { oracle: tor, msg: format!("[{:?}] {}", v.oracle, v.msg) })
+            .filter(|v| matches!(v.oracle, Oracle::L | Oracle::D | Oracle::DV | Oracle::WakerPanic | Oracle::Panic(_)))
+            .filter(|v| !(case.terminal == Terminal::CollectVec && matches!(v.oracle, Oracle::L | Oracle::D | Oracle::DV)))
+            .map(|v| world::Violation { oracle: tor, msg: format!("[{:?}] {}", v.oracle, v.msg), fam: None })
             .collect();
         violations.extend(extra);
         let trace_lines = std::mem::take(&mut out.run.world.trace);
